@@ -25,6 +25,11 @@ def space_descs(tier, max_degree=None, patterns=True):
                         w = head + tail
                         if len(set(w)) > 1 and w not in pats:
                             pats.append(w)
+                if patterns and nc >= 3:
+                    geo = tuple(2 ** i for i in range(nc))
+                    for w in (geo, geo[::-1], (1,) * (nc - 1) + (9,), (9,) + (1,) * (nc - 1)):
+                        if w not in pats:
+                            pats.append(w)
                 for w in pats:
                     uni = len(set(w)) == 1
                     for flag in ((False, True) if (uni and d == 3) else (False,)):
